@@ -44,7 +44,11 @@ func world() (*simworld.World, error) {
 	})
 }
 
+// replyRace: inject an internal error immediately after the victim's reply (the open finding's shape); set by the canary only
+var replyRace bool
+
 func run(c Case) (res vh.Result) {
+	raceAvoided := false
 	w, err := world()
 	if err != nil {
 		res.Inconclusive = "world: " + err.Error()
@@ -285,6 +289,12 @@ func run(c Case) (res vh.Result) {
 			}
 			time.Sleep(5 * time.Millisecond)
 		}
+		if c.Kind == "INTERNAL_ERROR" && !replyRace && vh.Open("KF-C03-internal-error-after-reply") {
+			// open finding: an internal error announced within milliseconds of the task's reply to the in-flight command is
+			// overwritten by that reply (processed in another goroutine). Excluded by construction: the error comes 250 ms later.
+			time.Sleep(250 * time.Millisecond)
+			raceAvoided = true
+		}
 		inject()
 		time.Sleep(100 * time.Millisecond)
 		mu.Lock()
@@ -304,13 +314,20 @@ func run(c Case) (res vh.Result) {
 
 	res.NonTrivial = true
 	res.Classes = []string{"kind:" + c.Kind, "instant:" + c.Instant, "state:" + c.State, fmt.Sprintf("critical:%v", critical)}
+	if raceAvoided {
+		res.Classes = append(res.Classes, "reply-race-avoided")
+	}
 	sigBase := fmt.Sprintf("%s/%s", c.Kind, map[bool]string{true: "critical", false: "noncritical"}[critical])
+	sigTail := ""
+	if c.Kind == "INTERNAL_ERROR" && c.Instant == "parked" && !raceAvoided {
+		sigTail = "/right-after-reply"
+	}
 
 	if critical {
 		st, ok := w.WaitState(id, 15*time.Second, "ERROR")
 		steps = append(steps, fmt.Sprintf("waited for ERROR: state=%s ok=%v", st, ok))
 		if !ok {
-			return fail("stays-healthy:"+sigBase+"/"+c.State, "critical task t%d suffered %s while the environment was %s (%s); 15 s later the environment reports %s instead of ERROR", victim, c.Kind, c.State, c.Instant, st)
+			return fail("stays-healthy:"+sigBase+"/"+c.State+sigTail, "critical task t%d suffered %s while the environment was %s (%s); 15 s later the environment reports %s instead of ERROR", victim, c.Kind, c.State, c.Instant, st)
 		}
 		// stays in ERROR and never reports RUNNING again
 		deadline := time.Now().Add(1200 * time.Millisecond)
@@ -403,6 +420,26 @@ func TestCanaryTaskFinished(t *testing.T) {
 	vh.Canary(t, prop, "KF-C03-task-finished", Case{Tasks: two(true, true), State: "RUNNING", Victim: 0, Kind: "TASK_FINISHED", Instant: "idle"}, vh.Confirmed(run))
 }
 
+
+// Open finding: TASK_INTERNAL_ERROR of a critical task that arrives right after the task's reply to an in-flight
+// transition command is lost: the reply is handled in its own goroutine and overwrites the ERROR state afterwards.
+// Schedule-dependent (seen under load); the canary tries the immediate injection a few times.
+func TestCanaryInternalErrorAfterReply(t *testing.T) {
+	defer simworld.Discard()
+	if !vh.Open("KF-C03-internal-error-after-reply") {
+		return
+	}
+	replyRace = true
+	defer func() { replyRace = false }()
+	c := Case{Tasks: []TaskSpec{{Host: 2, Critical: true, Group: 2}, {Host: 1, Critical: false, Group: 0}}, State: "RUNNING", Victim: 0, Kind: "INTERNAL_ERROR", Instant: "parked"}
+	for i := 0; i < vh.Scale(3, 25); i++ {
+		if r := run(c); r.Violation != "" {
+			vh.Canary(t, prop, "KF-C03-internal-error-after-reply", c, func(Case) vh.Result { return r })
+			return
+		}
+	}
+	vh.Canary(t, prop, "KF-C03-internal-error-after-reply", c, func(Case) vh.Result { return vh.Result{} })
+}
 
 func TestCanaryTaskFinishedConfigured(t *testing.T) {
 	defer simworld.Discard()
